@@ -710,7 +710,16 @@ class Exec:
                 a = a[i]
             env[ins.dest] = a
             return
-        if op in ("alloca", "store", "inttoptr", "insertvalue"):
+        if op == "insertvalue":
+            agg = self.operand(ins.args[0], env)
+            v = self.operand(ins.args[1], env)
+            if len(ins.extra) != 1 or not isinstance(agg, tuple):
+                raise Unsupported("nested insertvalue")
+            lst = list(agg)
+            lst[ins.extra[0]] = v
+            env[ins.dest] = tuple(lst)
+            return
+        if op in ("alloca", "store", "inttoptr"):
             raise Unsupported("memory-writing IR (%s) is outside the encoded subset" % op)
         raise Unsupported("instruction " + op)
 
@@ -734,6 +743,13 @@ class Exec:
         if op == "mul":
             ca, cb = z3.is_bv_value(simp(a)), z3.is_bv_value(simp(b))
             sym2 = not ca and not cb
+            if w >= 128 and o.mul_uf and sym2:
+                # an __int128 product of widened 64-bit values: the same modular MULW<w> that oracles use for exact products
+                h = w // 2
+                fits = lambda v: z3.SignExt(w - h, z3.Extract(h - 1, 0, v)) == v
+                if "nsw" in fl:
+                    self.ub("signed-overflow(mul) [operands not widened %d-bit values]" % h, ins, z3.Not(z3.And(fits(a), fits(b))))
+                return mulw(w)(simp(a), simp(b))
             if ("nsw" in fl and not (o.mul_ovf == "bits" and sym2)) or ((o.wide_mul or o.mul_uf) and sym2):
                 wide = self.wide_mul(a, b, True)
                 lo = z3.Extract(w - 1, 0, wide)
@@ -1244,6 +1260,8 @@ class IntExec(Exec):
             return IV(z3.IntVal(v), ty.w)
         if op.kind in ("undef", "zero") and isinstance(ty, IntTy):
             return IV(z3.IntVal(0), ty.w)
+        if op.kind in ("undef", "zero") and isinstance(ty, StructTy):
+            return tuple(self.operand(Op(op.kind, None, t), env) for t in ty.fields)
         if op.kind == "reg":
             return env[op.v]
         if op.kind in ("global", "cexpr", "fp"):
@@ -1402,6 +1420,15 @@ class IntExec(Exec):
             for i in ins.extra:
                 a = a[i]
             env[ins.dest] = a
+            return
+        if op == "insertvalue":
+            agg = self.operand(ins.args[0], env)
+            v = self.operand(ins.args[1], env)
+            if len(ins.extra) != 1 or not isinstance(agg, tuple):
+                raise Unsupported("nested insertvalue")
+            lst = list(agg)
+            lst[ins.extra[0]] = v
+            env[ins.dest] = tuple(lst)
             return
         if op in ("fadd", "fsub", "fmul", "fdiv", "fneg", "fcmp", "sitofp", "uitofp", "fptosi", "fpext", "fptrunc"):
             if o.fp_mode != "real":
